@@ -3,7 +3,7 @@
    The claim is PARTIAL: the heap model (Heap.v) abstracts CPython object semantics. *)
 From Coq Require Import ZArith List Bool.
 Import ListNotations.
-Require Import PyBase Heap HeapFacts HeapFrame HeapCopy HeapSim HeapHistory HeapExamples.
+Require Import PyBase Heap HeapFacts HeapFrame HeapCopy HeapSim HeapHistory HeapOps HeapExamples.
 Open Scope Z_scope.
 
 (* copy.deepcopy creates only new objects: the old heap is a prefix of the new one, the result refers to new objects only *)
@@ -92,6 +92,64 @@ Theorem C11_siblings_independent K s ci a1 a2 es :
     = view n (sh (run_events K s [EInit ci a1; EInit ci a2])) (VR rj).
 Proof. exact (siblings_independent K s ci a1 a2 es). Qed.
 
+(* ---------------- the same at the level of fsic OPERATIONS (each compiled against the heap its predecessors left) *)
+(* every modelled public operation - item / series / scalar assignment, add_variable, attribute sets, strict, list and dict
+   mutations, solve passes and status writes, trace_t, linker submodel writes - brings no class-owned or caller-owned object
+   into its receiver, on ANY heap; the one exception is trace_t(trace=True) with a class-level TRACE_VARIABLES list *)
+Theorem C11_every_operation_is_tight K h r o :
+  (match o with OTraceT _ _ TMClass _ => false | _ => true end) = true ->
+  forallb (fun a => negb (act_leaky a)) (compile_op K h r o) = true.
+Proof. exact (compile_op_tight K h r o). Qed.
+
+(* ALL histories of operations, copies (any route, any point), new instances, class mutations: roots stay pairwise separate and
+   every root that receives no operation keeps its sub-heap literally *)
+Theorem C11_operation_history_independent K es s :
+  roots_ok s -> forallb hevent_ok es = true ->
+  roots_ok (run_hevents K s es) /\
+  (exists new, sroots (run_hevents K s es) = sroots s ++ new) /\
+  (forall j rj, nth_error (sroots s) j = Some rj ->
+                (forall e, In e es -> hreceiver e <> Some j) ->
+                same_subheap (sh s) (sh (run_hevents K s es)) rj).
+Proof. exact (hhistory_independent K es s). Qed.
+
+(* SEPARATION THEOREM: copy()/copy.copy()/copy.deepcopy() at any point; original and copy reach disjoint sets of objects; taking
+   the copy changes nothing of the original; after ANY later history of operations / copies / instantiations, in both directions,
+   the side that received no operation shows the same state at every depth *)
+Theorem C11_copy_then_any_operations K s i r es :
+  roots_ok s -> nth_error (sroots s) i = Some r -> forallb hevent_ok es = true ->
+  forall r', nth_error (sroots (run_event K s (ECopy i))) (length (sroots s)) = Some r' ->
+  let s1 := run_event K s (ECopy i) in
+  roots_ok s1 /\ sep (sh s1) r r' /\
+  (forall n, view n (sh s1) (VR r) = view n (sh s) (VR r)) /\
+  roots_ok (run_hevents K s1 es) /\
+  ((forall e, In e es -> hreceiver e <> Some i) ->
+     forall n, view n (sh (run_hevents K s1 es)) (VR r) = view n (sh s) (VR r)) /\
+  ((forall e, In e es -> hreceiver e <> Some (length (sroots s))) ->
+     forall n, view n (sh (run_hevents K s1 es)) (VR r') = view n (sh s1) (VR r')).
+Proof. exact (copy_independent_ops K s i r es). Qed.
+
+(* the same for BaseLinker.copy (linker with its submodels) *)
+Theorem C11_linker_copy_then_any_operations K s i r es :
+  roots_ok s -> nth_error (sroots s) i = Some r -> forallb hevent_ok es = true ->
+  forall r', nth_error (sroots (run_event K s (ELinkerCopy i))) (length (sroots s)) = Some r' ->
+  let s1 := run_event K s (ELinkerCopy i) in
+  roots_ok s1 /\ sep (sh s1) r r' /\
+  (forall n, view n (sh s1) (VR r) = view n (sh s) (VR r)) /\
+  roots_ok (run_hevents K s1 es) /\
+  ((forall e, In e es -> hreceiver e <> Some i) ->
+     forall n, view n (sh (run_hevents K s1 es)) (VR r) = view n (sh s) (VR r)) /\
+  ((forall e, In e es -> hreceiver e <> Some (length (sroots s))) ->
+     forall n, view n (sh (run_hevents K s1 es)) (VR r') = view n (sh s1) (VR r')).
+Proof. exact (linker_copy_independent_ops K s i r es). Qed.
+
+(* hypotheses satisfiable: a traced model, its copy, then list mutation / add_variable / lags / traced two-pass solve / a new
+   sibling / a class mutation: nothing is shared afterwards *)
+Theorem C11_operation_history_example :
+  forallb hevent_ok ops_history = true /\
+  let s := run_events K0 (s0 1 None) [EInit 0 (args range_span)] in
+  roots_ok s /\ sharing (run_hevents K0 (run_event K0 s (ECopy 1)) ops_history) = [].
+Proof. exact (conj ex_ops_history_ok ex_copy_then_ops_share_nothing). Qed.
+
 (* hypotheses are satisfiable: a concrete class, its instances, a copy, an operation *)
 Theorem C11_hypotheses_satisfiable : roots_ok (s0 0 None).
 Proof. exact ex_roots_ok. Qed.
@@ -143,3 +201,8 @@ Print Assumptions C11_tracer_class_list_leak_refuted.
 Print Assumptions C11_shared_span_argument_refuted.
 Print Assumptions C11_copy_unshares_internal_alias_refuted.
 Print Assumptions C11_reindex_shares_object_cells_refuted.
+Print Assumptions C11_every_operation_is_tight.
+Print Assumptions C11_operation_history_independent.
+Print Assumptions C11_copy_then_any_operations.
+Print Assumptions C11_linker_copy_then_any_operations.
+Print Assumptions C11_operation_history_example.
